@@ -551,6 +551,9 @@ def rule_utf8(ck):
 
 
 def run(ck):
+    from ..x_valuewalk import guard_obligations
+
+    guard_obligations(ck, [])
     ck.rule("C21.html", "xhtml_escape = html.escape(to_unicode(value)) with quote escaping; xhtml_unescape = html.unescape(to_unicode(value))")
     ck.rule("C21.json", "every return of json_encode is json.dumps(value) passed through replace('</', R), R '</'-free and JSON-equivalent; json_decode = json.loads(value)")
     ck.rule("C21.url", "url_escape/url_unescape case table over (plus, encoding is None): quote_plus|quote, unquote_plus|unquote with the caller's encoding, unquote_to_bytes with '+' replaced beforehand iff plus; both default to plus=True")
